@@ -63,6 +63,25 @@ def run_shard(shard, tier, seed, wd, res):
             eu = s.op(gp + ".enc_u", la)
             s.op(gp + ".dec_c", ec)
             s.op(gp + ".dec_u", eu)
+        # library-produced identities (cancelling sums keep non-trivial X, Y with Z = 0) and negated affine values
+        for P in pts[:6]:
+            if P is None:
+                continue
+            pj = V.proj(g, *G.rescale(g, P, G.rand_fe(g, rng)))
+            z = s.op(gp + ".sub", pj, V.proj(g, *G.rescale(g, P, G.rand_fe(g, rng))))
+            za = s.op(gp + ".to_affine", z)
+            zm = s.op(gp + ".to_affine", s.op(gp + ".addm", pj, V.aff(g, c.neg(P))))
+            zn = s.op(gp + ".aneg", V.aff(g, None))
+            zr = s.op(gp + ".to_affine", s.op(gp + ".amul", V.aff(g, P), V.RR(R)))
+            pn = s.op(gp + ".aneg", V.aff(g, P))
+            for v_ in (za, zm, zn, zr, pn, s.op(gp + ".aneg", za)):
+                ec = s.op(gp + ".enc_c", v_)
+                eu = s.op(gp + ".enc_u", v_)
+                s.op(gp + ".dec_c", ec)
+                s.op(gp + ".dec_u", eu)
+            for v_ in (z, s.op(gp + ".neg", z)):
+                s.op("ser", v_, V.t(True), V.n(0), V.n(-1))
+                s.op("ser", v_, V.t(False), V.n(0), V.n(-1))
         s.op(gp + ".enc_sizes")
         # out-of-domain observations (not judged)
         so = G.small_order_points(g, rng)
@@ -99,6 +118,8 @@ def run_shard(shard, tier, seed, wd, res):
 
 
 def judge(ctx, rec, res):
+    if "." not in rec.op:
+        return spec.judge(ctx, rec, res)      # ser of library-produced values (stream form of the same encodings)
     name = rec.op.split(".")[1]
     g = 1 if rec.op.startswith("g1") else 2
     if name.startswith("dec_"):
